@@ -10,7 +10,7 @@ use crate::analysis::opt::OptimizationPlan;
 use crate::arena::{Arena, ArenaCow, ArenaString, PoolSet};
 use crate::arena_format;
 use crate::builtins::{
-    ArrayBuiltin, Builtin, GlobalBuiltin, NumberBuiltin, ProcessCommandBuiltin,
+    ArrayBuiltin, Builtin, GlobalBuiltin, MemberBuiltin, NumberBuiltin, ProcessCommandBuiltin,
     ProcessResultBuiltin, StringBuiltin,
 };
 use crate::diagnostics::{AsStr, Diagnostics, Label, Severity, Span};
@@ -812,8 +812,9 @@ impl<'a> Runtime<'a> {
                 let slot = mem::replace(slot, Value::Null);
                 Ok(slot)
             }
-            Expr::Member { .. } => {
-                unreachable!("Semantic analysis guarantees member access is always a function call")
+            // `p.len` without a call on a dynamically typed value passes the resolver
+            Expr::Member { span, .. } => {
+                Err(RuntimeError::new(RuntimeErrorKind::TypeMismatch, *span))
             }
             Expr::Call { .. } => self.eval_function_call(expr),
         }
@@ -983,6 +984,14 @@ impl<'a> Runtime<'a> {
         args: &'a ArgList<'a>,
         span: Span,
     ) -> Result<Value<'a>, RuntimeError> {
+        // The resolver cannot check the argument count of a method on a dynamically
+        // typed receiver, and the evaluators below index the arguments directly.
+        if let Some(builtin) = MemberBuiltin::from_name(field)
+            && args.args.len() < builtin.arity()
+        {
+            return Err(RuntimeError::new(RuntimeErrorKind::TypeMismatch, span));
+        }
+
         // Mutable methods stay name-directed so lvalue receivers and index expressions are
         // evaluated only on the mutation path.
         if let Some(array_builtin) = ArrayBuiltin::from_name(field)
@@ -1372,7 +1381,7 @@ impl<'a> Runtime<'a> {
                 }
             }
             Expr::Index { .. } => {
-                let (base_expr, base_var, index_exprs) = self.flatten_index_target(object);
+                let (base_expr, base_var, index_exprs) = self.flatten_index_target(object)?;
 
                 let mut evaluated_indices = Vec::with_capacity_in(index_exprs.len(), self.frame);
                 for (index_expr, index_span) in &index_exprs {
@@ -1455,7 +1464,7 @@ impl<'a> Runtime<'a> {
                 }
             }
             Expr::Index { .. } => {
-                let (base_expr, base_var, index_exprs) = self.flatten_index_target(object);
+                let (base_expr, base_var, index_exprs) = self.flatten_index_target(object)?;
 
                 let mut evaluated_indices = Vec::with_capacity_in(index_exprs.len(), self.frame);
                 for (index_expr, index_span) in &index_exprs {
@@ -1766,7 +1775,7 @@ impl<'a> Runtime<'a> {
         value: Value<'a>,
         span: Span,
     ) -> Result<(), RuntimeError> {
-        let (base_expr, base_var, index_exprs) = self.flatten_index_target(target);
+        let (base_expr, base_var, index_exprs) = self.flatten_index_target(target)?;
 
         let mut evaluated_indices = Vec::with_capacity_in(index_exprs.len(), self.frame);
         for (index_expr, index_span) in &index_exprs {
@@ -1815,7 +1824,7 @@ impl<'a> Runtime<'a> {
     fn flatten_index_target(
         &self,
         mut target: ExprRef<'a>,
-    ) -> (ExprRef<'a>, &'a str, Vec<(ExprRef<'a>, Span), &'a Arena>) {
+    ) -> Result<(ExprRef<'a>, &'a str, Vec<(ExprRef<'a>, Span), &'a Arena>), RuntimeError> {
         let mut indices = Vec::new_in(self.frame);
         loop {
             match target {
@@ -1825,9 +1834,13 @@ impl<'a> Runtime<'a> {
                 }
                 Expr::Var(name, ..) => {
                     indices.reverse();
-                    return (target, *name, indices);
+                    return Ok((target, *name, indices));
                 }
-                _ => unreachable!("Semantic analysis guarantees valid index assignment target",),
+                // The base of an index target is a call result or another temporary
+                // (`f()[0] get 2`, `f()[0].push(1)`): there is no variable to update.
+                other => {
+                    return Err(RuntimeError::new(RuntimeErrorKind::TypeMismatch, other.span()));
+                }
             }
         }
     }
